@@ -215,6 +215,7 @@ class PlugsSupport(object):
     self.ctx = ctx
     self.htf = env['htf']
     self.classes = {}
+    self.requested = {}
     serial = [0]
     for key, beh in spec.items():
       idx = int(key)
@@ -255,14 +256,24 @@ class PlugsSupport(object):
     req = node.get('plugs') or []
     if not req:
       return phase
-    return self.htf.plug(**{arg: self.classes[cls] for arg, cls in req})(phase)
+    phase = self.htf.plug(**{arg: self.classes[cls] for arg, cls in req})(phase)
+    self.requested[node['id']] = dict(req)
+    if node.get('wa'):
+      # a shared settings dict applied to every phase with with_args (unknown keys are legal): a key that is also the
+      # name of a plug argument must not replace the plug ("plugs override extra_kwargs")
+      phase = phase.with_args(**{arg: 'station-setting' for arg, cls in req})
+    return phase
 
   def seen(self, pid, kwargs):
     with self.ctx.lock:
       for arg in sorted(kwargs):
         inst = kwargs[arg]
-        idx = int(type(inst).__name__[4:])
-        self.ctx.inst.append('I:%d:%s:%d:%d' % (pid, arg, idx, inst.serial))
+        name = type(inst).__name__
+        if name.startswith('Plug') and name[4:].isdigit():
+          self.ctx.inst.append('I:%d:%s:%d:%d' % (pid, arg, int(name[4:]), inst.serial))
+        elif arg in self.requested.get(pid, {}):
+          # something that is not the plug arrived under the plug's argument name
+          self.ctx.inst.append('I:%d:%s:%d:%d' % (pid, arg, self.requested[pid][arg], 999999))
 
 
 def build_node(node, ctx, env):
